@@ -60,6 +60,14 @@ def rvec(rng):
     return [rng.randint(-4, 4) for _ in range(3)]
 
 
+def start_arg(s):
+    """the `start` argument as the real call gets it: 'auto', a Python int, or — for every third value — a numpy integer
+    (np.argmax / np.arange results are what users pass on); the model gets the same integer"""
+    if s is None:
+        return "auto"
+    return [int, np.int64, np.int32][s % 3](s)
+
+
 def gen_start(rng, nmax):
     if rng.random() < 0.45:
         return None
@@ -302,7 +310,7 @@ def call_rotate(obj, op):
     rot = mk_rot(op["rot"])
     an = op["anchor"]
     anchor = None if an is None else (0 if an == 0 else (an[1] if an[0] == "s" else an[1]))
-    kw = {"anchor": anchor, "start": "auto" if op["start"] is None else op["start"]}
+    kw = {"anchor": anchor, "start": start_arg(op["start"])}
     form = op.get("form", "rotate")
     single = op["rot"][0] == "s"
     if form == "none":
@@ -414,7 +422,7 @@ def real_lines(h):
         try:
             if k == "move":
                 inp = op["inp"][1] if op["inp"][0] == "s" else np.array(op["inp"][1], dtype=float).reshape(-1, 3)
-                obj.move(inp, start="auto" if op["start"] is None else op["start"])
+                obj.move(inp, start=start_arg(op["start"]))
             elif k == "rot":
                 call_rotate(obj, op)
             elif k == "angax":
@@ -423,7 +431,7 @@ def real_lines(h):
                 g = op["angle"]
                 angle = angax_value(op, g[1]) if g[0] == "s" else [angax_value(op, q) for q in g[1]]
                 axis = op["axis"] if isinstance(op["axis"], str) else tuple(op["axis"])
-                obj.rotate_from_angax(angle, axis, anchor=anchor, start="auto" if op["start"] is None else op["start"], degrees=op["degrees"])
+                obj.rotate_from_angax(angle, axis, anchor=anchor, start=start_arg(op["start"]), degrees=op["degrees"])
             elif k == "setpos":
                 obj.position = op["val"][0] if op.get("flat") else op["val"]
             elif k == "setori":
